@@ -3,6 +3,7 @@
 package electricpb
 
 import (
+	"google.golang.org/protobuf/proto"
 	"sync"
 
 	"github.com/smart-core-os/sc-api/go/traits"
@@ -26,8 +27,10 @@ func VT_C11_ElectricModel() {
 		n := 0
 		for _, md := range m.Modes() {
 			n += len(md.Title)
+			_ = proto.Clone(md) // a reader looks at every field (as marshalling a response does)
 		}
 		n += len(m.ActiveMode().Title)
+		_ = proto.Clone(m.ActiveMode())
 		_ = n
 	}()
 	wg.Wait()
